@@ -64,3 +64,9 @@ prop('C35', [n for n, k in _SM], 'comp',
                 'commitment the managers run is the z = 0 round of Just Works / numeric comparison). Sampling, not proof.',
      level_note='trusted: reference machine; the pairing method Table 2.8 selects is used for labels and generator steering only (C36 checks the selection).',
      assumptions=COMMON_ASSUME)
+
+# the same cases and oracles under libFuzzer (coverage guided); one binary with all three managers, the property is handed over at run time
+target('c32_sm_fuzz', 'engines/comp/c32_sm_fuzz.cpp', kind='fuzz',
+       quick=dict(runs=40000, max_seconds=45, max_len=400), thorough=dict(runs=5000000, max_seconds=1200, max_len=600))
+for _p in ('C32', 'C33', 'C34', 'C35'):
+    PROPERTIES[_p]['targets'] = PROPERTIES[_p]['targets'] + ['c32_sm_fuzz']
